@@ -22,6 +22,7 @@ import math
 import os
 import subprocess
 import sys
+import time
 from fractions import Fraction
 
 import numpy as np
@@ -146,6 +147,11 @@ def bin_rows(rows):
         if p is not None:
             acc[p] += n
     return acc
+
+
+def _rk(rows):
+    """comparable form of frame rows (index label dropped; NaN compares equal to itself)"""
+    return [tuple(float(x).hex() for x in r[-3:]) for r in rows]
 
 
 def rows_class(rows):
@@ -345,7 +351,7 @@ class Model:
                     bad("read-changed", f"reading .{op[1]} changed the observable state to {obs.describe()}")
                 if op[1] in ("array", "xarray") and not (val.shape == acc.shape and np.array_equal(val, acc)):
                     bad("read-value", f".{op[1]} returned {val.tolist()} but the accumulated charge is {acc.tolist()}")
-                if op[1] == "frame" and [r[1:] for r in val] != [r[1:] for r in before.rows]:
+                if op[1] == "frame" and _rk(val) != _rk(before.rows):
                     bad("read-value", f".frame returned {val} for {before.describe()}")
         elif name == "empty":
             self.counts["resets"] += 1
@@ -378,7 +384,7 @@ class Model:
                     f"{type(exc).__name__}: {exc}")
             elif before.rows:
                 remaining = [] if op[1] == "all" else [r for r in before.rows if r[0] not in ids]
-                if [r[1:] for r in obs.rows] != [r[1:] for r in remaining]:
+                if _rk(obs.rows) != _rk(remaining):
                     bad("remove-wrong", f"after removing {'all' if op[1] == 'all' else ids} the frame holds "
                         f"{[r[1:] for r in obs.rows]}, expected {[r[1:] for r in remaining]}")
                 if remaining:
@@ -527,14 +533,17 @@ def _model_for(shard, collect=None):
 
 def run_shard(shard):
     os.environ["VERIF_SEED"] = str(shard.get("seed", 0))
+    t0 = time.time()
     frames = {} if shard["part"] == "jit" else None
     m = _model_for(shard, collect=frames)
     stats, viols = seqx.bfs(m, shard["depth"], max_violations=200)
     out = []
     for v in viols:
+        v = _minimise(v)
         out.append({"key": v["key"], "what": v["what"],
                     "case": {"part": "bulk", "ops": v["ops"], "seed": shard.get("seed", 0)}})
-    counts = {"states": stats["states"], "transitions": stats["transitions"], "cap_hit": int(stats["cap_hit"])}
+    counts = {"states": stats["states"], "transitions": stats["transitions"], "cap_hit": int(stats["cap_hit"]),
+              "cpu_s_" + shard["part"]: int(round(time.time() - t0))}
     counts.update(m.counts)
     sets = {"explored": [f"{shard['part']}:{shard.get('pos', shard.get('slice'))}@depth{stats['depth_completed']}"]}
     if frames is not None:
@@ -551,6 +560,21 @@ def run_shard(shard):
             out.append({"key": key, "what": what, "case": {"part": "jit", "frame": fr, "seed": shard.get("seed", 0)}})
     return {"violations": out, "counts": counts, "sets": sets,
             "samples": [{"part": shard["part"], "ops": stats["sample"]}]}
+
+
+def _minimise(v):
+    """drop operations that are not needed for the same violation key (greedy, re-executed each time)"""
+    ops = list(v["ops"])
+    best = v
+    i = 0
+    while i < len(ops) - 1:
+        cand = ops[:i] + ops[i + 1:]
+        got = [x for x in seqx.run_sequence(Model(BASE_OPS), cand) if x["key"] == v["key"] and len(x["ops"]) == len(cand)]
+        if got:
+            ops, best = cand, got[0]
+        else:
+            i += 1
+    return best
 
 
 def replay(case):
